@@ -21,6 +21,7 @@ type c19Chunk struct {
 	ID        string
 	Size      int
 	Recovered bool
+	Bad       int // recovered entry the feeder cannot deliver: 1 = zero-length file (corrupted), 2 = unreadable (load fails)
 }
 
 type c19Recon struct {
@@ -51,6 +52,7 @@ type c19Recon struct {
 	afterFiles map[string]bool
 	closedConn map[int]bool
 	collectNext int
+	badDrops    int // recovered entries dropped by the feeder (zero-length or unreadable)
 	ackcap      int
 	window      []int // chunks put into the output channel at shutdown for takes that follow the stop
 	stopSeq     int   // trace sequence number of the stop request of this generation
@@ -94,7 +96,14 @@ func c19BuildChunks(po *c19PipeObs, qcap int) ([]c19Chunk, map[string]int, int) 
 	}
 	for _, f := range before {
 		index[f.ID] = len(chunks)
-		chunks = append(chunks, c19Chunk{ID: f.ID, Size: f.Size, Recovered: true})
+		c := c19Chunk{ID: f.ID, Size: f.Size, Recovered: true}
+		switch {
+		case f.Unreadable:
+			c.Bad = 2
+		case f.Size == 0:
+			c.Bad = 1
+		}
+		chunks = append(chunks, c)
 	}
 	nrec := len(chunks)
 	created := map[string]int{}
@@ -135,8 +144,25 @@ func (rc *c19Recon) accept(i int) {
 	rc.queue = append(rc.queue, i)
 }
 
+// dropBadHeads: the feeder receives a recovered entry it cannot deliver: a zero-length file is "corrupted" (removed,
+// counted dropped), an unreadable one fails to load (counted dropped, stays where it is)
+func (rc *c19Recon) dropBadHeads() {
+	for len(rc.queue) > 0 && rc.chunks[rc.queue[0]].Bad != 0 {
+		bad := rc.chunks[rc.queue[0]].Bad
+		rc.queue = rc.queue[1:]
+		rc.emit(3)
+		if bad == 1 {
+			rc.emit(4, 1, 1)
+		} else {
+			rc.emit(4, 0, 1)
+		}
+		rc.badDrops++
+	}
+}
+
 // moveToWindow pushes chunk i (and nothing else) through the feeder.
 func (rc *c19Recon) moveToWindow(i int) {
+	rc.dropBadHeads()
 	for rc.nextAccept <= i {
 		if rc.nextAccept >= rc.nrec {
 			rc.accept(rc.nextAccept)
@@ -163,6 +189,7 @@ func (rc *c19Recon) ensureStop(evIdx int) {
 		return
 	}
 	rc.stopDone = true
+	rc.dropBadHeads()
 	// chunks first sent after this point were still taken from the (closed) output channel; everything queued
 	// before them was in the output channel as well (the feeder is FIFO) and is either taken or saved from there
 	maxLater := -1
@@ -388,6 +415,7 @@ func c19Reconstruct(po *c19PipeObs, params e2eParams, ambQueued int, stopSeq int
 		rc.unloaded[i] = true
 	}
 	rc.nextAccept = nrec
+	rc.dropBadHeads() // the feeder starts with the head of the queue
 	spill := int(po.Buf["input_chunks_total/persistent"]) - nrec
 	if spill < 0 {
 		spill = 0
@@ -631,25 +659,39 @@ func c19PipeOracle(po *c19PipeObs, chunks []c19Chunk, nrec int) []Fail {
 		}
 	}
 	created := int64(len(chunks) - nrec)
-	var createdBytes, afterBytes int64
+	var createdBytes, afterBytes, nBad, unreadableAfter int64
 	for _, ch := range chunks[nrec:] {
 		createdBytes += int64(ch.Size)
 	}
+	for _, ch := range chunks[:nrec] {
+		if ch.Bad != 0 {
+			nBad++ // recovered entries the feeder must count as dropped: zero-length (corrupted) or unreadable
+		}
+	}
 	for _, f := range po.After {
 		afterBytes += int64(f.Size)
+		if f.Unreadable {
+			unreadableAfter++
+		}
 	}
+	files := int64(len(po.After))
 	// accepted = delivered + left on disk + dropped (+ still pending)
 	if in != consumed+leftover+dropped+pending {
 		add("c19:buffer:in!=consumed+leftover+dropped+pending", "input %d (transient %d + persistent %d) but consumed %d + leftover %d + dropped %d + pending %d = %d",
 			in, b["input_chunks_total/transient"], b["input_chunks_total/persistent"], consumed, leftover, dropped, pending, consumed+leftover+dropped+pending)
 	}
-	if dropped == 0 && in != int64(nrec)+created {
+	// the gauges of what is left on disk can never be negative
+	if b["persistent_chunks"] < 0 || b["persistent_chunk_bytes"] < 0 || pending < 0 {
+		add("c19:buffer:negative-gauge", "persistent_chunks %d, persistent_chunk_bytes %d, pending_chunks %d after the stop", b["persistent_chunks"], b["persistent_chunk_bytes"], pending)
+	}
+	expected := dropped == nBad // nothing was dropped except the recovered entries that cannot be delivered
+	if expected && in != int64(nrec)+created {
 		add("c19:buffer:in!=recovered+created", "input chunks %d but %d files were recovered and %d new chunks were seen (sent, confirmed, handed back or on disk)", in, nrec, created)
 	}
-	if w := po.Worker["chunks_total"]; dropped == 0 && w != created {
+	if w := po.Worker["chunks_total"]; expected && w != created {
 		add("c19:worker:chunks_total!=created", "process_chunks_total %d but %d new chunks were seen", w, created)
 	}
-	if w := po.Worker["chunk_bytes_total"]; dropped == 0 && w != createdBytes {
+	if w := po.Worker["chunk_bytes_total"]; expected && w != createdBytes {
 		add("c19:worker:chunk_bytes_total!=created", "process_chunk_bytes_total %d but the new chunks have %d bytes", w, createdBytes)
 	}
 	if consumed != nConsumed {
@@ -658,13 +700,19 @@ func c19PipeOracle(po *c19PipeObs, chunks []c19Chunk, nrec int) []Fail {
 	if leftover != nLeft {
 		add("c19:buffer:leftover!=handbacks", "leftover_chunks_total %d but the consumer handed back %d chunks", leftover, nLeft)
 	}
-	if dropped == 0 {
-		if int64(len(po.After)) != leftover+pending {
-			add("c19:buffer:disk!=leftover+pending", "%d chunk files after the stop but leftover %d + pending %d", len(po.After), leftover, pending)
+	if dropped != nBad {
+		add("c19:buffer:dropped!=undeliverable", "dropped_chunks_total %d but %d recovered entries were zero-length or unreadable (no quota, no queue overflow in this scenario)", dropped, nBad)
+	}
+	if expected {
+		// "left on disk": the chunk files in the queue directory after the stop are the handed-back and the still pending
+		// chunks (plus the entries that cannot be read, which stay where they are and are not the agent's any more);
+		// persistent_chunks / persistent_chunk_bytes are the number and the total size of those files
+		if files != leftover+pending+unreadableAfter {
+			add("c19:buffer:disk!=leftover+pending", "%d chunk files after the stop (%d of them unreadable entries) but leftover %d + pending %d", files, unreadableAfter, leftover, pending)
 		}
-		if b["persistent_chunks"] != int64(len(po.After)) || b["persistent_chunk_bytes"] != afterBytes {
-			add("c19:buffer:persistent-gauges!=disk", "persistent_chunks %d / persistent_chunk_bytes %d but %d files with %d bytes on disk",
-				b["persistent_chunks"], b["persistent_chunk_bytes"], len(po.After), afterBytes)
+		if b["persistent_chunks"] != files-unreadableAfter || b["persistent_chunk_bytes"] != afterBytes {
+			add("c19:buffer:persistent-gauges!=disk", "persistent_chunks %d / persistent_chunk_bytes %d but %d chunk files (+ %d unreadable entries) with %d bytes are in the queue directory; start-up directory: %s",
+				b["persistent_chunks"], b["persistent_chunk_bytes"], files-unreadableAfter, unreadableAfter, afterBytes, c19DiskText(po.Before))
 		}
 	}
 	// client
@@ -706,4 +754,18 @@ func c19EventsText(evs []c19Ev) string {
 		parts[i] = e.String()
 	}
 	return strings.Join(parts, " ")
+}
+
+func c19DiskText(fs []c19DiskFile) string {
+	parts := make([]string, len(fs))
+	for i, f := range fs {
+		kind := ""
+		if f.Unreadable {
+			kind = " unreadable"
+		} else if f.Size == 0 {
+			kind = " zero-length"
+		}
+		parts[i] = fmt.Sprintf("%s(%d B%s)", f.ID, f.Size, kind)
+	}
+	return "[" + strings.Join(parts, " ") + "]"
 }
